@@ -12,6 +12,26 @@ type vhB struct {
 	n      int
 	lite   bool // scalar() explores string/number only
 	plain  bool // strings do not carry the pattern index's type prefixes (F_, B_, S_)
+	// carve-outs of the open C01 findings (see known_findings.json):
+	sortable   bool // arrays hold scalars of one kind (or <= 1 element)
+	noVarConst bool // an array holding a variable holds nothing else
+}
+
+// pair returns two distinct scalars for a two-element array.
+func (b *vhB) pair() (interface{}, interface{}) {
+	if b.sortable {
+		if vchoose(2) == 0 {
+			x, y := b.str(), b.str()
+			vassume(x != y)
+			return x, y
+		}
+		x, y := b.num(), b.num()
+		vassume(x != y)
+		return x, y
+	}
+	x, y := b.scalar2(), b.scalar2()
+	vhScalarsDistinct(x, y)
+	return x, y
 }
 
 func (b *vhB) name(kind string) string {
